@@ -305,6 +305,8 @@ def run(ctx):
     from .generic import ctor_forwards_params, per_instance_state
     ctor_forwards_params(ctx, 'R16.7', ['queues'], floor=1)
     per_instance_state(ctx, 'R16.8', ['queues'], floor=2)
+    from .generic import handlers_match_lookups
+    handlers_match_lookups(ctx, 'R16.9', ['queues'], floor=3)
     r16_1(ctx)
     r16_2(ctx)
     r16_3(ctx)
